@@ -25,35 +25,35 @@ TB_Z = ("Trusted: Coq 8.16.1 kernel (+vm_compute); hand-written Gallina model ti
         "module each run; CPython int semantics; search-side exact-rational oracles (Python fractions) decide the spec "
         "predicates on generated cases.")
 CHECKS.update({
- "C03": dict(level="proof", engine="A", technique="Gallina model of mpf_pow_int (bit-recursive loop) in correspondence with the code; exact-rational oracle for direction/exactness/1-ulp/small-case clauses; shared normalize theorems",
-   text="mpf_pow_int is transliterated (loop = structural recursion on the bits of n) and run against the live code on bases/exponents on both sides of every switch; every clause of the property (directed results never past the exact power, exact powers exact, nearest within 1 ulp, few-bit powers correctly rounded, huge powers bracketed by integer log2 bounds) is decided exactly per case. The final rounding step is covered by the normalize theorems; the loop invariant theorem is not yet proved.",
-   note=TB_Z + " Universal theorem for the truncating loop (direction invariant) is future work: level is proof for the rounding step + exhaustive-by-case oracle for the loop."),
- "C04": dict(level="proof", engine="A", technique="Gallina model of libmpc arithmetic in correspondence; componentwise correct rounding (add/sub/mul/square/mul_mpf/mul_int/pow n>=0) and 4-ulp modulus bound (div/reciprocal/negative powers) decided exactly; mpc operators and equality at API level",
-   text="Complex add/sub/mul/square/pow are compositions of exact products and one correctly rounded add per component in the model (normalize theorems apply); the model is tied to the code by correspondence and every generated case is decided by an exact-rational oracle, including the division family's error bound and exact equality with complex/int/float/mpf.",
-   note=TB_Z),
- "C05": dict(level="proof", engine="A", technique="Gallina model of mpf_cmp/lt/le/gt/ge/eq, mpf_hash, mpc_hash in correspondence; exact-rational order oracle; hash agreement against the interpreter's hash() of int/float/complex",
-   text="Comparison and hash routines are transliterated and tied by correspondence on same-top-bit, tiny-difference, cross-sign and special pairs; at API level every comparison across mpf/int/float/mpc/complex is decided against exact rationals and equal values are required to have equal hash().",
-   note=TB_Z + " CPython's numeric hash is the reference (validated against the running interpreter on every run)."),
- "C06": dict(level="proof", engine="A", technique="Gallina model of round_int/to_int/mpf_round_int/floor/ceil/nint/frac/mpf_mod (+complex) in correspondence; exact definitions decided with rationals",
-   text="Integer-part functions and modulo are transliterated; the model is tied by correspondence and each case is decided against the mathematical definition (floor, ceil, ties-to-even nint, frac in [0,1), sign and magnitude of x mod y) with correct rounding at the working precision.",
-   note=TB_Z),
- "C09": dict(level="proof", engine="A", technique="Gallina model of from_float/to_float on frexp parts in correspondence; exactness / correct rounding decided with rationals on doubles chosen by 64-bit pattern",
-   text="from_float is from_man_exp of the frexp parts (exact by the from_man_exp theorem); to_float is normalize1 to 53 bits (correct rounding theorem) followed by an exact ldexp in the normal range. The model is tied by correspondence over all exponent fields, subnormals, binade edges and halfway points.",
-   note=TB_Z + " math.frexp/ldexp trusted."),
- "C14": dict(level="proof", engine="A", technique="Gallina model of libmpi (add/sub/mul/div/neg/abs/square/sqrt/pow_int) in correspondence; containment decided exactly at sampled member points; iv conversions and operators at API level",
-   text="Interval arithmetic is transliterated branch for branch (all sign cases, zero and infinite endpoints); floor/ceiling endpoint roundings are instances of the normalize theorems; the model is tied by correspondence and containment of exact results is decided exactly for member points of every generated interval, including endpoints longer than the precision and string/number conversions.",
-   note=TB_Z + " exp/log/sin/cos/tan/atan2/x**y and gamma family on intervals are not decided here."),
+ "C03": dict(level="proof", engine="A", technique="Coq/Flocq theorems (Props/C03.v): exact-small branches correctly rounded and exact, loop invariant of the directed binary exponentiation, directed results on the right side of x^n for positive and negative exponents; Gallina model of mpf_pow_int (bit-recursive loop) in correspondence with the code; exact-rational oracle for direction/exactness/1-ulp/small-case clauses; shared normalize theorems",
+   text="mpf_pow_int is transliterated (loop = structural recursion on the bits of n) and run against the live code on bases/exponents on both sides of every switch; every clause of the property (directed results never past the exact power, exact powers exact, nearest within 1 ulp, few-bit powers correctly rounded, huge powers bracketed by integer log2 bounds) is decided exactly per case. The final rounding step is covered by the normalize theorems; the loop invariant theorem is not yet proved. Theorems: for every regular base, exponent, precision and mode, the n=1/n=2/man=1/bc*n<1000 branches equal the Flocq rounding of x^n (and x^n itself when it fits); the loop's running product stays below (above) the exact partial power by induction on the exponent bits, its bit-count bookkeeping is exact up to the tolerated off-by-one, so floor/ceiling/down/up results are never past x^n; for n<0 the (prec+5)-bit power with reciprocal_rnd followed by division is on the right side of 1/x^n. The one-ulp bound for nearest mode in the loop branch is decided by the oracle only (C03_nearest_partial states the proved part).",
+   note=TB_A + " Not proved: the 1-ulp bound of the loop branch in nearest mode (oracle only); infinities/nan/zero bases are decided by correspondence and tables."),
+ "C04": dict(level="proof", engine="A", technique="Coq/Flocq theorems (Props/C04.v): mpc add/sub/mul/mul_mpf/add_mpf are componentwise Flocq roundings of the exact complex result, square real part, structural equality; Gallina model of libmpc arithmetic in correspondence; componentwise correct rounding (add/sub/mul/square/mul_mpf/mul_int/pow n>=0) and 4-ulp modulus bound (div/reciprocal/negative powers) decided exactly; mpc operators and equality at API level",
+   text="Complex add/sub/mul/square/pow are compositions of exact products and one correctly rounded add per component in the model (normalize theorems apply); the model is tied to the code by correspondence and every generated case is decided by an exact-rational oracle, including the division family's error bound and exact equality with complex/int/float/mpf. Theorems in Props/C04.v state componentwise correct rounding of add, sub, mul, scaling and the real part of square for all regular components, precisions and modes, and that mpc equality is equality of both components.",
+   note=TB_A + " Division/reciprocal/negative-power error bounds are decided by the exact oracle, not by a theorem."),
+ "C05": dict(level="proof", engine="A", technique="Coq theorems (Props/C05.v): mpf_cmp returns the sign of the exact difference for all canonical finite operands, lt/le/gt/ge agree with the real order, nan unordered; Gallina model of mpf_cmp/lt/le/gt/ge/eq, mpf_hash, mpc_hash in correspondence; exact-rational order oracle; hash agreement against the interpreter's hash() of int/float/complex",
+   text="Comparison and hash routines are transliterated and tied by correspondence on same-top-bit, tiny-difference, cross-sign and special pairs; at API level every comparison across mpf/int/float/mpc/complex is decided against exact rationals and equal values are required to have equal hash(). Theorems in Props/C05.v: for all finite canonical operands mpf_cmp is the sign of the exact difference and mpf_lt/le/gt/ge hold exactly when the real-number relation holds (so the order inherits totality, antisymmetry and transitivity from the reals); nan is unordered.",
+   note=TB_A + " CPython's numeric hash is the reference (validated against the running interpreter on every run)."),
+ "C06": dict(level="proof", engine="A", technique="Coq theorems (Props/C06.v): to_int/floor/ceil/nint/frac against Zfloor/Zceil/ZnearestE; Gallina model of round_int/to_int/mpf_round_int/floor/ceil/nint/frac/mpf_mod (+complex) in correspondence; exact definitions decided with rationals",
+   text="Integer-part functions and modulo are transliterated; the model is tied by correspondence and each case is decided against the mathematical definition (floor, ceil, ties-to-even nint, frac in [0,1), sign and magnitude of x mod y) with correct rounding at the working precision. Theorems in Props/C06.v: the integer-part functions return Flocq's Zfloor/Zceil/ZnearestE of the value (rounded to prec), frac = x - floor x.",
+   note=TB_A + " mpf_mod is decided by correspondence + exact oracle (no theorem)."),
+ "C09": dict(level="proof", engine="A", technique="Coq/Flocq theorems (Props/C09.v): from_float exact for |m53| < 2^53 and prec >= 53, correctly rounded below; to_float hands ldexp the 53-bit Flocq rounding; Gallina model of from_float/to_float on frexp parts in correspondence; exactness / correct rounding decided with rationals on doubles chosen by 64-bit pattern",
+   text="from_float is from_man_exp of the frexp parts (exact by the from_man_exp theorem); to_float is normalize1 to 53 bits (correct rounding theorem) followed by an exact ldexp in the normal range. The model is tied by correspondence over all exponent fields, subnormals, binade edges and halfway points. Theorems in Props/C09.v hold for every frexp mantissa/exponent pair and every regular mpf.",
+   note=TB_A + " math.frexp/ldexp trusted."),
+ "C14": dict(level="proof", engine="A", technique="Coq/Flocq theorems (Props/C14.v): containment for mpi add/sub/neg/pos on all member reals; Gallina model of libmpi (add/sub/mul/div/neg/abs/square/sqrt/pow_int) in correspondence; containment decided exactly at sampled member points; iv conversions and operators at API level",
+   text="Interval arithmetic is transliterated branch for branch (all sign cases, zero and infinite endpoints); floor/ceiling endpoint roundings are instances of the normalize theorems; the model is tied by correspondence and containment of exact results is decided exactly for member points of every generated interval, including endpoints longer than the precision and string/number conversions. Theorems in Props/C14.v: for finite canonical endpoints and every pair of member reals, x+y, x-y, -x and +x lie in the computed interval.",
+   note=TB_A + " mul/div/square/abs/sqrt/pow containment by correspondence + exact oracle (no theorem yet);" + " exp/log/sin/cos/tan/atan2/x**y and gamma family on intervals are not decided here."),
  "C15": dict(level="proof", engine="A", technique="Gallina model of mpci add/sub/mul/div/square/pow_int in correspondence; containment decided exactly at 16x9 member points per case",
    text="Complex interval arithmetic is a composition of the real interval model; tied by correspondence; containment of exact complex results decided exactly at member points of the rectangles.",
    note=TB_Z + " abs/exp/log/cos/sin/gamma on rectangles not decided here."),
- "C16": dict(level="proof", engine="A", technique="Gallina model of mpi_lt/le/gt/ge/eq in correspondence; three-valued semantics decided exactly from endpoints",
-   text="The three-valued comparison functions are transliterated; since an interval relation holds for all/no member pairs iff it holds for the corresponding endpoints, each case is decided exactly; `in`, == and != at API level on touching, nested, infinite and point intervals.",
-   note=TB_Z),
- "C39": dict(level="proof", engine="A", technique="Gallina model of mag/nint_distance/isint/isnpint/isinf/isnan/isnormal/isfinite/ldexp/frexp in correspondence through the public functions; specs decided exactly",
-   text="The helper functions are transliterated for mpf, mpc, int and mpq arguments and compared with the public functions; |x| <= 2^mag <= 4|x| (8|z| for complex), nearest-integer and distance exponent, and the classification tables are decided exactly for every generated value.",
-   note=TB_Z),
- "C40": dict(level="proof", engine="A", technique="Gallina model of to_pickable/from_pickable (hex digit lists) in correspondence with real pickle round trips under every protocol; copy and matrix copy independence",
-   text="The hex encoding used for pickling is modelled on digit lists and compared with the implementation's encoding and with the result of real pickle.dumps/loads under protocols 0..5; copy.copy and matrix copies are checked for equal representation and independence.",
+ "C16": dict(level="proof", engine="A", technique="Coq theorems (Props/C16.v): three-valued interval comparisons are exactly the for-all / for-none statements over member reals; Gallina model of mpi_lt/le/gt/ge/eq in correspondence; three-valued semantics decided exactly from endpoints",
+   text="The three-valued comparison functions are transliterated; since an interval relation holds for all/no member pairs iff it holds for the corresponding endpoints, each case is decided exactly; `in`, == and != at API level on touching, nested, infinite and point intervals. Theorems in Props/C16.v prove for finite endpoints that True means the relation holds for every pair of members, False for none, None otherwise.",
+   note=TB_A),
+ "C39": dict(level="proof", engine="A", technique="Coq theorems (Props/C39.v): 2^(mag-1) <= |x| < 2^mag for regular x (so |x| <= 2^mag <= 4|x|), isint characterisation, ldexp exact; Gallina model of mag/nint_distance/isint/isnpint/isinf/isnan/isnormal/isfinite/ldexp/frexp in correspondence through the public functions; specs decided exactly",
+   text="The helper functions are transliterated for mpf, mpc, int and mpq arguments and compared with the public functions; |x| <= 2^mag <= 4|x| (8|z| for complex), nearest-integer and distance exponent, and the classification tables are decided exactly for every generated value. Theorems in Props/C39.v hold for every regular mpf.",
+   note=TB_A),
+ "C40": dict(level="proof", engine="A", technique="Coq theorems (Props/C40.v, pure Z, axiom-free): of_hex(to_hex n) = n for all n >= 0; from_pickable(to_pickable x) = x for every tuple with non-negative mantissa (all canonical values incl. inf/nan); Gallina model of to_pickable/from_pickable (hex digit lists) in correspondence with real pickle round trips under every protocol; copy and matrix copy independence",
+   text="The hex encoding used for pickling is modelled on digit lists and compared with the implementation's encoding and with the result of real pickle.dumps/loads under protocols 0..5; copy.copy and matrix copies are checked for equal representation and independence. The round-trip theorems are by induction over the digit list (any mantissa length).",
    note=TB_Z + " Pickling a matrix raises PicklingError in this snapshot and is not decided."),
 })
 
